@@ -220,8 +220,8 @@ def read_text(path, root=None):
 def children(node):
     if isinstance(node, dict):
         for k, v in node.items():
-            if k in ("tokens",):
-                continue
+            if k in ("tokens",) or k[:1] == "_":
+                continue  # annotations (`_owner`, `_impl`) point back up the tree
             if isinstance(v, (dict, list)):
                 yield v
     elif isinstance(node, list):
